@@ -175,6 +175,7 @@ class CFG(object):
 # ---------------------------------------------------------------------- facts
 _POS = {}
 PRED_INLINER = None  # set by the engine: Program.inline_pred
+PRED_SUMMARY = None  # set by the engine: Program.pred_paths
 
 
 def facts(test, polarity):
@@ -199,6 +200,15 @@ def facts(test, polarity):
         e = PRED_INLINER(test)
         if e is not None:
             return facts(e, polarity)
+        if PRED_SUMMARY is not None:
+            alts = PRED_SUMMARY(test, polarity)
+            if alts:
+                # what every path of the helper with this outcome has in common also holds at the call
+                common = None
+                for alt in alts:
+                    keys = {(ast.dump(a_), p_): (a_, p_) for a_, p_ in alt}
+                    common = keys if common is None else {k: v for k, v in common.items() if k in keys}
+                return [(test, polarity)] + list((common or {}).values())
     if isinstance(test, ast.Compare) and len(test.ops) == 1 and isinstance(test.ops[0], (ast.NotEq, ast.IsNot, ast.NotIn)):
         # a != b  <=>  not (a == b): report the positive atom with the flipped polarity
         pos = {ast.NotEq: ast.Eq, ast.IsNot: ast.Is, ast.NotIn: ast.In}[type(test.ops[0])]()
